@@ -30,7 +30,7 @@ META = {
         "fermionic_core.FermionicArray.unfuse",
     ],
     "floors": {
-        "quick": {"evaluations": 4000, "distinct_nontrivial": 500, "tables": {"strategy/insert": 1000, "strategy/concat": 1000, "kind/fermionic": 500, "roundtrip": 2000, "hook/plan-compared": 2000, "feature/nested": 50, "feature/single-axis-group": 300, "feature/conj-of-fused-before": 300}},
+        "quick": {"evaluations": 4000, "distinct_nontrivial": 500, "tables": {"strategy/insert": 1000, "strategy/concat": 1000, "kind/fermionic": 500, "roundtrip": 2000, "hook/plan-compared": 2000, "feature/nested": 50, "feature/single-axis-group": 300, "feature/conj-of-fused-before": 300, "feature/empty-group": 1000}},
         "thorough": {"evaluations": 300000, "distinct_nontrivial": 30000, "tables": {"strategy/concat": 50000, "kind/fermionic": 30000, "feature/nested": 3000}},
     },
     "wall": {"quick": 100, "thorough": 1700},
@@ -395,11 +395,75 @@ def case_nested(ctx, hooks, rng):
         one_fuse(ctx, hooks, rng, x, groups, ["nested"] if touches else ["prefused-bystander"])
 
 
+def case_empty_groups(ctx, hooks, rng):
+    """fuse with empty groups: expand_empty=False ignores them; expand_empty=True adds a
+    zero-charge size-one axis per empty group - element for element the same tensor as the
+    fuse of the non-empty groups with np.expand_dims applied."""
+    from symv.dense import embed
+
+    sr = ctx.sr
+    sym = rng.choice(gen.SYMS5)
+    ferm = rng.random() < 0.4
+    x = gen.rand_array(sr, rng, sym, ndim=rng.choice([2, 3, 4]), fermionic=ferm, values=gen.Values(rng, "unique"), maxd=2)
+    groups = list(rng.choice(groupings(rng, x.ndim, 4)))
+    withempty = list(groups)
+    npos = rng.randint(1, 2)
+    for _ in range(npos):
+        withempty.insert(rng.randint(0, len(withempty)), ())
+    wit = {"op": "fuse", "groups": [list(g) for g in withempty], "x": describe(x, True)}
+    base = ctx.call(lambda: x.fuse(*groups))
+    if not base.ok:
+        return
+    ctx.evaluated()
+    ctx.count("feature", "empty-group")
+    o0 = ctx.call(lambda: x.fuse(*withempty, expand_empty=False))
+    if not o0.ok:
+        ctx.violation(f"fuse-empty-group-raises-{o0.excname}", repr(o0.exc), wit)
+        return
+    if snapshot(o0.value) != snapshot(base.value):
+        ctx.violation("fuse-empty-group-not-ignored", "fuse(..., expand_empty=False) with empty groups differs from the fuse of the non-empty groups", wit)
+        return
+    o1 = ctx.call(lambda: x.fuse(*withempty))
+    if not o1.ok:
+        ctx.violation(f"fuse-empty-group-raises-{o1.excname}", repr(o1.exc), wit)
+        return
+    y = o1.value
+    errs = audit(y)
+    if errs:
+        ctx.violation("fuse-empty-group-invalid", "; ".join(errs[:3]), wit)
+        return
+    if y.ndim != base.value.ndim + npos:
+        ctx.violation("fuse-empty-group-rank", f"rank {y.ndim} != {base.value.ndim} + {npos}", wit)
+        return
+    new_axes = [k for k, ix in enumerate(y.indices) if ix.size_total == 1 and dict(ix.chargemap) == {R.identity(sym): 1}]
+    d0 = embed(base.value)
+    dy = embed(y)
+    # the result must be the base tensor with size-one axes inserted somewhere
+    if dy.size != d0.size or not np.array_equal(np.sort(np.abs(dy).reshape(-1)), np.sort(np.abs(d0).reshape(-1))) or len(new_axes) < npos:
+        ctx.violation("fuse-empty-group-value", "fuse with empty groups is not the fuse of the non-empty groups with zero-charge size-one axes added", wit)
+        return
+    squeezed = dy.reshape([n for k, n in enumerate(dy.shape) if not (k in new_axes[:npos])]) if False else None
+    ok = False
+    import itertools as _it
+
+    for combo in _it.combinations(new_axes, npos):
+        shp = [n for k, n in enumerate(dy.shape) if k not in combo]
+        if shp == list(d0.shape) and np.array_equal(dy.reshape(shp), d0):
+            ok = True
+            break
+    if not ok:
+        ctx.violation("fuse-empty-group-value", "removing the added size-one axes does not give back the fuse of the non-empty groups", wit)
+        return
+    ctx.nontrivial(("empty", struct_sig(x), tuple(withempty)))
+
+
 def run(ctx):
     hooks = Hooks(ctx)
     hooks.install_plan_hook()
     for _, rng in ctx.cases("nested", ctx.budget(11000, 200000)):
         ctx.run_case(case_nested, ctx, hooks, rng)
+    for _, rng in ctx.cases("empty-groups", ctx.budget(6000, 100000)):
+        ctx.run_case(case_empty_groups, ctx, hooks, rng)
     for _, rng in ctx.cases("structure", ctx.budget(13000, 20000)):
         ctx.run_case(case_structure, ctx, hooks, rng)
     hooks.uninstall()
